@@ -183,6 +183,7 @@ type Node struct {
 	controlled    bool // worker select under harness control (H1)
 	lateResultPm  int
 	shuttingDown  bool
+	burstDone     bool
 	syncedTo      map[uint64]bool
 	inbox         []*Msg // messages handed to the main loop and not yet taken by the (controlled) worker
 	curMsg        *Msg   // the message the worker is processing
